@@ -29,6 +29,10 @@ pub const FAULTS: &[(&str, &str)] = &[
     ("instruction-inside-dseg", ".dseg\n\u{1}nop\n.cseg"),
     ("undefined-symbol-in-elif", ".if 0\nnop\n\u{1}.elif undefined_sym_q\nnop\n.endif"),
     ("undef-of-unknown-alias", ".def al_q = r20\n.undef al_q\n\u{1}.undef al_q"),
+    // duplicate labels that bind the same address (nothing is emitted between them)
+    ("duplicate-label-adjacent", "\u{1}dup_q:\n\u{1}Dup_Q:\nnop"),
+    ("duplicate-label-same-address", "\u{1}dupb_q: .equ dq_q = 1\n; nothing emitted here\n.message \"between\"\n\u{1}dupb_q: nop"),
+    ("duplicate-label-in-dseg", ".dseg\n\u{1}dupc_q: .byte 0\n\u{1}dupc_q: .byte 1\n.cseg"),
 ];
 
 #[derive(Clone, Debug)]
@@ -273,7 +277,28 @@ pub fn build_msg(c: &MsgCase) -> BuiltMsg {
         };
         if Some(i) == err_idx {
             // .error at top level, in a taken or in an untaken arm
-            match t % 3 {
+            match t % 5 {
+                3 => {
+                    // .error in the body of a macro that is called
+                    push(&mut with, &mut without, ".macro em_q".into(), false);
+                    push(&mut with, &mut without, ".if @0 > 10".into(), false);
+                    push(&mut with, &mut without, ".error \"stop in macro\"".into(), true);
+                    push(&mut with, &mut without, ".endif".into(), false);
+                    push(&mut with, &mut without, "nop".into(), false);
+                    push(&mut with, &mut without, ".endm".into(), false);
+                    push(&mut with, &mut without, format!("em_q {}", 11 + a % 50), false);
+                    error_assembled = true;
+                }
+                4 => {
+                    // the same macro, called so that its .error is not assembled
+                    push(&mut with, &mut without, ".macro em_q".into(), false);
+                    push(&mut with, &mut without, ".if @0 > 10".into(), false);
+                    push(&mut with, &mut without, ".error \"never in macro\"".into(), true);
+                    push(&mut with, &mut without, ".endif".into(), false);
+                    push(&mut with, &mut without, "nop".into(), false);
+                    push(&mut with, &mut without, ".endm".into(), false);
+                    push(&mut with, &mut without, format!("em_q {}", a % 10), false);
+                }
                 0 => {
                     push(&mut with, &mut without, ".error \"stop here\"".into(), true);
                     error_assembled = true;
